@@ -163,5 +163,23 @@ def wrong_key(evs):
 check("a normalised key renamed", "TraceAux", core.TRACE_CFG % "InvAux",
       [l for l in open(nout).readlines() if "invalid-utf8" not in l], wrong_key)
 
+# the reporting path: an open known finding suppresses only what its entry identifies
+class _K:
+    prop = "C18"
+    known = [{"status": "open", "property": "C18", "what": "w", "match": {"line_re": "\"rt\":\"diff:invalid-utf8\""}},
+             {"status": "open", "property": "C18", "what": "no criteria", "match": {}},
+             {"status": "open", "property": "C18", "what": "unknown criterion", "match": {"lines_re": "."}},
+             {"status": "fixed", "property": "C18", "what": "fixed", "match": {"op": ["Insert"]}}]
+other = {"trace": ['{"op":"Reset","profile":"rich"}\n', '{"op":"Insert","runs":[{"be":"bolt","res":{"st":"ok","harm":"x"}}]}\n'],
+         "line_in_trace": 2, "invariant": "InvNoPanic"}
+same = dict(other, trace=[other["trace"][0], '{"op":"Norm","kind":"normdoc","rt":"diff:invalid-utf8","runs":[]}\n'])
+for name, info, want in (("another violation of a property with an open finding", other, None), ("the listed finding itself", same, "w")):
+    k = core.known_match(_K, info, {})
+    got = k and k["what"]
+    print("%-34s -> %s" % (name[:34], "reported" if got is None else "KNOWN-FINDING (%s)" % got))
+    if got != want:
+        print("  the known-finding matcher is wrong: expected %r" % (want,))
+        bad += 1
+
 ctx.cleanup()
 sys.exit(1 if bad else 0)
